@@ -61,6 +61,8 @@ def generate(rng):
     if deco is not None and rng.random() < 0.25:
         cfg["bystander"] = {"at": rng.randint(0, 5), "deco": sample_constraints(rng, cfg["n2"], max_pairs=3)}
     cfg["layouts"] = sample_layouts(rng)
+    if not uses_precomputed(cfg) and rng.random() < 0.1:
+        cfg["stray_y"] = True
     if uses_precomputed(cfg):
         # a user-supplied matrix can come in any memory order and need not be exactly symmetric (e.g. a transport cost)
         cfg["affinity_layout"] = weighted(rng, [("C", 5), ("F", 3)])
@@ -257,9 +259,11 @@ class Checker:
             want_p = self.raw_predict_proba(Xblk)
             if np.shape(want_p) != np.shape(yp) or not np.allclose(want_p, yp, rtol=1e-12, atol=1e-14, equal_nan=True):
                 res.violate("C10:val_block:predictions", {"j": j})
-            if y is not None:
+            if y is not None and uses_precomputed(self.cfg):
                 want_a = np.asarray(y)[j:j + b][:, j:j + b]
             else:
+                # no "precomputed" affinity is configured: a second argument is documented as not used, the affinity of a
+                # block is the GEMINI's own kernel / distance of its rows
                 cols = sel if (dyn and len(sel) > 0) else np.arange(X.shape[1])   # nothing selected: all features
                 if needs_affinity(self.cfg):
                     want_a = self.h.sim_gemini.real.compute_affinity(Xblk[:, cols])
@@ -306,6 +310,16 @@ def execute(record):
                 M = M + np.triu(rsA.uniform(0.0, 0.05, size=M.shape), 1)
             return np.asfortranarray(M) if cfg.get("affinity_layout") == "F" else np.ascontiguousarray(M)
         A, A1 = user_matrix(A), user_matrix(A1)
+        if cfg.get("stray_y"):
+            # a second argument although nothing is "precomputed": documented as not used
+            def stray(n_rows, salt):
+                M = np.random.RandomState((cfg["data_seed"] ^ salt) % (2 ** 31)).normal(size=(n_rows, n_rows))
+                return np.ascontiguousarray((M + M.T) / 2)
+            if A is None:
+                A = stray(len(X), 0x57A1)
+            if A1 is None:
+                A1 = stray(len(X1), 0x57A2)
+            res.probe("runs_with_unused_second_argument")
         pool = [(X, A), (X1, A1)]
         model = build_model(cfg, log)
         world = World(log, res, rng)
